@@ -36,6 +36,9 @@ THEOREMS = [
 ]
 
 
+REVISIT_KINDS = ["volume", "atom_density", "mass_density", "surface_constant", "location", "radius", "fraction", "displacement", "importance"]
+
+
 def _observe(p, rng, how):
     v = p.mcnp_version
     objs = list(p.cells) + list(p.surfaces) + list(p.data_inputs)
@@ -82,6 +85,19 @@ def run_case(case):
                 script = case["script"]
                 for e in script:
                     edits.apply(p, e)
+            elif case.get("revisit"):
+                # the same quantity is set twice: first to a value that needs many digits, then to a short one
+                # (an observation between the two must leave nothing behind: seeded change C19a)
+                script = []
+                for _ in range(nedits):
+                    e = edits.gen_edit(rng, p, REVISIT_KINDS)
+                    if e is None:
+                        break
+                    first = list(e)
+                    first[-1] = float(repr(abs(e[-1]) * 1.000000123456 + 1.23456789e-7)[:14]) * (-1 if e[-1] < 0 else 1)
+                    for x in (first, e):
+                        edits.apply(p, x)
+                        script.append(x)
             else:
                 script = edits.gen_script(rng, p, nedits) if nedits else []
             out["script"] = script
@@ -240,6 +256,8 @@ def gen_cases(chk):
         limit = 80 if i % 3 == 0 else 128
         text = genprob.render(gp, r, limit=limit, style="random" if i % 2 else "plain")
         cases.append({"name": f"gen{i}", "limit": limit, "text": text, "seed": r.randrange(10**6), "nedits": [0, 2, 5, 8][i % 4]})
+        if i % 8 == 2:
+            cases[-1]["revisit"] = True
     return cases
 
 
@@ -295,12 +313,14 @@ def run(chk):
                 text = wholefile.shrink_text(text, fails, c["limit"])
             rr = run_case(dict(c, text=text))
             chk.violation(sig, what, {"name": c["name"], "limit": c["limit"], "text": text, "seed": c["seed"], "nedits": c["nedits"],
-                                      "script": rr.get("script"), "observation": {k: rr.get(k) for k in ("g1", "again", "observed", "g2") if k in rr}})
+                                      "revisit": bool(c.get("revisit")), "script": rr.get("script"), "observation": {k: rr.get(k) for k in ("g1", "again", "observed", "g2") if k in rr}})
 
 
 def replay(chk, payload):
     case = payload["case"]
     c = {"name": case.get("name", "replay"), "limit": case["limit"], "text": case["text"], "seed": case.get("seed", 1), "nedits": case.get("nedits", 0)}
+    if case.get("revisit"):
+        c["revisit"] = True
     chk.rule = "replay of one stored case"
     r = run_case(c)
     chk.note_case({"name": c["name"]})
